@@ -105,7 +105,7 @@ def gen_chose(rnd, alts, all_prob=0.5):
 
 
 def weights_for(rnd, crit_ids, style=None):
-    style = style or rnd.choice(['mixed', 'mixed', 'mixed', 'equal', 'ties', 'ones', 'close', 'large'])
+    style = style or rnd.choice(['mixed', 'mixed', 'mixed', 'equal', 'ties', 'ones', 'close', 'large', 'tiny'])
     w = {}
     if style == 'close':   # pairwise distinct, yet within 1e-6 / 1e-7 of each other (and one float-noise pair: 0.1+0.2 vs 0.3)
         base = rnd.choice([0.3, 0.4444444, 1.0, 2.5])
@@ -116,6 +116,10 @@ def weights_for(rnd, crit_ids, style=None):
     if style == 'large':
         for i, c in enumerate(crit_ids):
             w[c] = 4.0e6 + rnd.choice([0.0, 3.0, 1.0, -2.0, 1000.0])
+        return w
+    if style == 'tiny':   # importances are scale-free: a tiny unit must order the criteria like any other
+        for i, c in enumerate(crit_ids):
+            w[c] = rnd.choice([4.0, 1.0, 3.0, 2.0, 7.0]) * 1e-9
         return w
     for c in crit_ids:
         if style == 'equal':
@@ -226,6 +230,9 @@ def electre_params(rnd, crits, custom_dist_prob=0.3):
         ec[c['id']] = e
     if rnd.random() < 0.12:
         ec['undeclared'] = {'k': 1.0, 'q': {'a': 0, 'b': 0.5}}
+    if rnd.random() < 0.1:   # the weights k are scale-free (used as k / sum k, and by their order)
+        for e in ec.values():
+            e['k'] = e['k'] * 1e-9
     mp = {'electreCriteria': ec}
     if rnd.random() < custom_dist_prob:
         mp['electreDistillation'] = rnd.choice([{'a': -0.15, 'b': 0.3}, {'a': -0.25, 'b': 0.5}, {'a': 0, 'b': 0.125},
